@@ -84,6 +84,8 @@ def gen_string(rng, allow_unrepresentable=True) -> str:
     if r < 0.94:
         return rng.choice(["?", ".", "1.5", "-3", "1e5", "1.2(3)", "'", '"', "''", " lead", "trail ",
                            "a;b", "a#b", "a_b", "x$", "#", "a '", 'a "'])
+    if 0.945 <= r < 0.96:
+        return gen_long(rng)
     if r < 0.945 and allow_unrepresentable:
         return word() + "\n;" + word(0, 5)  # no CIF 1.1 representation exists
     n = rng.randrange(1, 80)
@@ -91,10 +93,35 @@ def gen_string(rng, allow_unrepresentable=True) -> str:
     return "".join(rng.choice(alphabet) for _ in range(n))
 
 
+def gen_long(rng) -> str:
+    """Long text (a provenance record, a command line, a JSON dump): around and beyond the
+    80 / 2048 character line lengths of the CIF specifications."""
+    n = rng.choice([79, 80, 81, 200, 2046, 2047, 2048, 2049, 3000, 5000, 20000])
+    kind = rng.randrange(4)
+    if kind == 0:
+        return "A" * n
+    if kind == 1:
+        words = ["_prov.step", "value", "data_leak", "loop_", "_x", "1", "2.5(3)", "#", ";", "'q'", "stop_"]
+    else:
+        words = ["w%d" % k for k in range(7)] + ["reduce", "--input", "run_1234.nxs", "{\"a\":", "1}"]
+    out = []
+    size = 0
+    while size < n:
+        w = rng.choice(words)
+        out.append(w)
+        size += len(w) + 1
+    text = " ".join(out)[:n].rstrip() or "A"
+    if kind == 3:
+        text = "short first line\n" + text
+    return text
+
+
 def gen_comment(rng) -> str:
     r = rng.random()
     if r < 0.4:
         return ""
+    if r < 0.43:
+        return gen_long(rng)
     if r < 0.6:
         return gen_string(rng).replace("\r", " ")
     return rng.choice(["a comment", "two\nlines", "_tag value", "loop_", "data_evil\n_x 1",
@@ -497,7 +524,10 @@ class CifEngine(Engine):
         signal.signal(signal.SIGXFSZ, signal.SIG_IGN)
 
     def generate(self, rng, tier, i):
-        return generate(rng, tier, i)
+        scn = generate(rng, tier, i)
+        if rng.random() < 0.1:
+            scn["locale"] = "C"  # default text encoding of open() is strict ASCII
+        return scn
 
     # ----------------------------------------------------------- lib objects
     def _val(self, v):
@@ -1290,6 +1320,12 @@ def _simpler_strings(v: str):
     if len(v) > 1:
         yield v[: len(v) // 2]
         yield v[len(v) // 2:]
+        if len(v) > 64:
+            # length thresholds: keep the size, simplify the content; then shrink geometrically
+            yield "A" * len(v)
+            for d in (4, 16, 64, 256, 1024):
+                if len(v) // d > 1:
+                    yield v[: -(len(v) // d)]
         yield v[1:]
         yield v[:-1]
 
